@@ -759,7 +759,7 @@ pub fn run(tier: Tier) -> i32 {
         ck.explore::<Tm>("timers", i, c, &e);
     }
     ck.rule = format!(
-        "virtual clock, half-second grid, horizon = timeout + 5 s: v3/v5 server with keep-alive 1,2,3 s (client value), server override smaller / larger / with client value 0, and 0 = library default; background traffic absent or one complete packet per (period - 0.5 s) delivered whole, in two writes, or split across two slots; on top every placement of up to {} events (one more for the fragment families) out of {{traffic stops, extra packet, partial frame + rest, a handler becomes busy / completes (v3 max_receive 1: reading paused)}}; frame read rate (1 s, 3 s overall, > 4 bytes per period) with every placement of up to 5 fragment deliveries of 1 / 3 / 6 / rest bytes of a PUBLISH, and the same rate without an overall limit on a 47-byte SUBSCRIBE (not announced before it is complete) delivered in pieces of 12 / 6 / 1 / rest bytes, and with the three-period limit under steady traffic of such SUBSCRIBE frames trickling in over two seconds each (every frame has its own overall budget); connect timeout 2 s with CONNECT in up to three fragments (single-version servers, and the combined server with a 2 s protocol-version timeout in front of it); client keep-alive 0..3 s, idle or with a busy handler or with a streamed publish open across a ping or with the send window exhausted (max_send 1, unacknowledged publish, a second sender parked). Oracle: timeout only after a gap >= the period (never for live peers, also after a reading pause), with DISCONNECT 0x8D on v5; an idle connection is ended within timeout + 1.5 s; read timeout never earlier than configured nor for a frame above the rate, always for a stalled one; CONNECT in time accepted, late one dropped, no handler before acceptance; client writes PINGREQ at least once per keep-alive period",
+        "virtual clock, half-second grid, horizon = timeout + 5 s: v3/v5 server with keep-alive 1,2,3 s (client value), server override smaller / larger / with client value 0, and 0 = library default; background traffic absent or one complete packet per (period - 0.5 s) delivered whole, in two writes, or split across two slots; on top every placement of up to {} events (one more for the fragment families) out of {{traffic stops, extra packet, partial frame + rest, a handler becomes busy / completes (v3 max_receive 1: reading paused)}}, and with one event more out of that set plus {{the application's publish service stops being ready / is ready again: reading and timers pause and the keep-alive period starts over afterwards}}; frame read rate (1 s, 3 s overall, > 4 bytes per period) with every placement of up to 5 fragment deliveries of 1 / 3 / 6 / rest bytes of a PUBLISH, and the same rate without an overall limit on a 47-byte SUBSCRIBE (not announced before it is complete) delivered in pieces of 12 / 6 / 1 / rest bytes, and with the three-period limit under steady traffic of such SUBSCRIBE frames trickling in over two seconds each (every frame has its own overall budget); connect timeout 2 s with CONNECT in up to three fragments (single-version servers, and the combined server with a 2 s protocol-version timeout in front of it); client keep-alive 0..3 s, idle or with a busy handler or with a streamed publish open across a ping or with the send window exhausted (max_send 1, unacknowledged publish, a second sender parked). Oracle: timeout only after a gap >= the period (never for live peers, also after a reading pause), with DISCONNECT 0x8D on v5; an idle connection is ended within timeout + 1.5 s; read timeout never earlier than configured nor for a frame above the rate, always for a stalled one; CONNECT in time accepted, late one dropped, no handler before acceptance; client writes PINGREQ at least once per keep-alive period",
         ecfg.max_dev
     );
     ck.assumptions = vec![
